@@ -37,7 +37,7 @@ import unittest
 
 from .recorders import next_seq
 
-BASE_KINDS = ("kbd", "exit", "kbdsub", "exitsub", "basedirect")
+BASE_KINDS = ("kbd", "exit", "kbdsub", "exitsub", "basedirect", "genexit")
 FAILING = {"fail", "error", "failsub", "mismatch", "eqexc", "sameobj", "emptymulti", "xfail_err", "unhashable",
            "eqany", "surrogate"} | set(BASE_KINDS)
 
@@ -49,6 +49,7 @@ KIND_OUTCOME = {
     "error": "addError", "skip": "addSkip", "skipsub": "addSkip",
     "xfail": "addExpectedFailure", "uxs": "addUnexpectedSuccess",
     "kbd": "addError", "exit": "addError", "kbdsub": "addError", "exitsub": "addError", "basedirect": "addError",
+    "genexit": "addError",
 }
 REPORT_OUTCOME = {"skip": "addSkip", "failure": "addFailure", "error": "addError",
                   "xfail": "addExpectedFailure", "uxs": "addUnexpectedSuccess"}
@@ -312,6 +313,10 @@ def _do_raise(env, case, action, constituent=False):
             raise exc
         raise MultipleExceptions(*infos)
     kind, tok = action[1], action[2]
+    if kind == "genexit" and getattr(env, "deferred_runner", False):
+        # Under the Deferred runners GeneratorExit is the generator protocol's own signal (their inlineCallbacks
+        # generators are closed with it when a run is abandoned); a stage raising it itself is asserted for RunTest only.
+        kind = "basedirect"
 
     def note(exc):
         env.raised.append((kind, tok, exc))
@@ -330,6 +335,9 @@ def _do_raise(env, case, action, constituent=False):
         raise note(SystemExit(tok))
     if kind == "basedirect":
         raise note(MyBaseDirect(tok))
+    if kind == "genexit":
+        # (what g.throw(GeneratorExit) / an abandoned generator's clean-up lets out: a BaseException like the others)
+        raise note(GeneratorExit(tok))
     if kind == "kbdsub":
         raise note(MyKbd(tok))
     if kind == "exitsub":
@@ -632,6 +640,7 @@ def build_case(program, env, runner_factory=None, default_result=None):
     """Build a fresh TestCase instance interpreting ``program``."""
     import testtools
     from testtools import TestCase
+    env.deferred_runner = runner_factory is not None
 
     class Prog(TestCase):
         if runner_factory is not None:
